@@ -179,7 +179,9 @@ def reader_shape(rs: dict, rng: random.Random) -> dict:
     for r in rs["ops"]:
         for o in r:
             o["params"] = [_safe_param(p) for p in o["params"]]
-            if o["name"] == "flag_SetDungeonMode" and len(o["params"]) == 2 and not (isinstance(o["params"][1], int) and 0 <= o["params"][1] <= 3):
+            # (a value that is not one of the four modes - another number, a constant as the compiler emits it - stands for itself;
+            #  half of them are kept, the others become mode numbers so that the four modes stay well covered)
+            if o["name"] == "flag_SetDungeonMode" and len(o["params"]) == 2 and not (isinstance(o["params"][1], int) and 0 <= o["params"][1] <= 3) and rng.random() < 0.5:
                 o["params"][1] = rng.randint(0, 3)
             for i in INT_FLAG_OPS.get(o["name"], []):
                 if i < len(o["params"]) and not isinstance(o["params"][i], int):
@@ -190,7 +192,7 @@ def reader_shape(rs: dict, rng: random.Random) -> dict:
             if o["name"] == "SwitchDungeonMode":
                 in_dm = True
             elif in_dm and o["name"] == "Case":
-                if not (isinstance(o["params"][0], int) and 0 <= o["params"][0] <= 3):
+                if not (isinstance(o["params"][0], int) and 0 <= o["params"][0] <= 3) and rng.random() < 0.5:
                     o["params"][0] = rng.randint(0, 3)
             elif in_dm and o["name"] not in ("CaseValue", "CaseVariable", "CaseMenu", "CaseMenu2", "CaseScenario"):
                 in_dm = False
